@@ -115,6 +115,21 @@ ROLES = {
                         lambda f: f.params == ['self', 'node'] and len(_returns(f)) == 1 and
                         not _has(f, 'self.stores[') and not f.is_property and
                         f.name not in ('get_store', 'has_store', 'remove_store')),
+    '_get_mh_ratio': ('elfi.methods.inference.bsl:BSL', 'method',
+                      lambda f: f.params == ['self'] and _has(f, "['logposterior'][n - 1]") and
+                      _has(f, 'np.exp(') and not _has(f, 'self.likelihood(')),
+    '_propagate_state': ('elfi.methods.inference.bsl:BSL', 'method',
+                         lambda f: f.params == ['self'] and
+                         _has(f, 'self.random_state.multivariate_normal(')),
+    '_jacobian_logit_transform': ('elfi.methods.inference.bsl:BSL', 'method',
+                                  lambda f: f.params[-2:] == ['theta_tilde', 'bound'] and
+                                  _has(f, 'logJ') or (f.params[-1:] == ['bound'] and
+                                                      _has(f, 'Jacobian') and
+                                                      not _has(f, 'back'))),
+    '_para_logit_back_transform': ('elfi.methods.inference.bsl:BSL', 'method',
+                                   lambda f: f.params[-1:] == ['bound'] and
+                                   _has(f, 'theta_tilde') and _has(f, 'np.exp(') and
+                                   not _has(f, 'Jacobian') and not _has(f, 'logJ')),
     '_run': ('elfi.executor:Executor', 'method',
              lambda f: f.params[-1:] == ['G'] and _has(f, '.predecessors(') and
              _has(f, "['param']")),
